@@ -327,6 +327,10 @@ def register3(E):
                 return z3.If(lt, y, x) if op == 'max' else z3.If(lt, x, y)
             return {'lt': lt, 'gt': gt, 'le': neg(gt), 'ge': neg(lt)}[op]
         if ty == 'tracing': return False              # tracing is modelled as disabled
+        if isinstance(x, (SliceRef, Vec, Str)) or (isinstance(x, Agg) and ty in ('arr', 'tup')) or (isinstance(x, Enum) and ty == 'Option'):
+            o = e.cmp3(x, a[1])                           # lexicographic comparison of sequences / tuples / options
+            if op in ('max', 'min'): return (a[1] if o != 'Greater' else a[0]) if op == 'max' else (a[0] if o != 'Greater' else a[1])
+            return {'lt': o == 'Less', 'le': o != 'Greater', 'gt': o == 'Greater', 'ge': o != 'Less'}[op]
         if ty is None: raise EngineError('ordering of ' + repr(x))
         if op in ('max', 'min'):
             f = e._find_impl('cmp', 'Ord', ty, 2)
